@@ -301,6 +301,54 @@ def r5(ctx):
     ctx.ob("R5", bool(seen_wrap) and all(x == "data" for x in seen_wrap), "inspect iterates the data through DataIterator", func=f, sig="inspect wraps %s" % sorted(set(map(str, seen_wrap))), nontrivial=False)
 
 
+def r5_sources(ctx):
+    """inspect() evaluated end to end on a database built from a file (and on the file itself): for every look_for subset
+    and every limit the counters are those of the first `limit` features in iteration order."""
+    from . import scen
+    from ..absint import Unsupported
+    import itertools as _it
+    f = require_func(ctx, "inspect.inspect")
+    rows = [("chr1", "gene", 100, 900, "+", "ID=g1;Name=G1"), ("chr1", "mRNA", 100, 900, "+", "ID=t1;Parent=g1"), ("chr1", "exon", 100, 200, "+", "ID=e1;Parent=t1"),
+            ("chr1", "exon", 300, 400, "+", "ID=e2;Parent=t1"), ("chr2", "gene", 5, 50, "-", "ID=g2"), ("chr2", "exon", 5, 50, "-", "ID=e3;Parent=g2;Note=x"),
+            ("chr3", "tRNA", 7, 70, "-", "ID=r1")]
+    text = "".join("%s\tsrc\t%s\t%d\t%d\t.\t%s\t.\t%s\n" % r for r in rows)
+    it, db, t = scen.create_db_from_text(ctx, text, path="inspected.gff3")
+    if not scen.returned(ctx, t, "create_db", func=f, rule="R5"):
+        return
+    fdb = t.result[1]
+    value = {"featuretype": lambda r: r[1], "chrom": lambda r: r[0], "seqid": lambda r: r[0], "strand": lambda r: r[4], "start": lambda r: r[2], "source": lambda r: "src"}
+    subsets = [["featuretype", "chrom", "attribute_keys", "feature_count"], ["featuretype"], ["chrom", "strand"], ["seqid", "start"], ["attribute_keys"], ["feature_count"], ["source", "featuretype"]]
+    limits = [None, 0, 1, 2, 3, len(rows) - 1, len(rows), len(rows) + 5]
+    n = 0
+    bad = None
+    for label, data in (("a FeatureDB", fdb), ("a path", "inspected.gff3")):
+        for lf in subsets:
+            for limit in limits:
+                n += 1
+                try:
+                    tr = it.run(f, {"data": data, "look_for": list(lf), "limit": limit, "verbose": False}, copy_args=False)
+                except Unsupported as e:
+                    ctx.require(False, "inspect(%s) outside the analysable subset: %s" % (label, e))
+                ctx.require(len(tr) == 1, "inspect forks on concrete data (%d paths)" % len(tr))
+                seen = rows[:limit] if limit else rows
+                want = {k: {} for k in lf}
+                for r in seen:
+                    for k in lf:
+                        if k in value:
+                            want[k][value[k](r)] = want[k].get(value[k](r), 0) + 1
+                        elif k == "attribute_keys":
+                            for kv in r[5].split(";"):
+                                want[k][kv.split("=")[0]] = want[k].get(kv.split("=")[0], 0) + 1
+                want["feature_count"] = len(seen)
+                got = tr[0].result[1] if tr[0].result[0] == "return" else ("raises", tr[0].result[1])
+                if isinstance(got, dict):
+                    got = {k: (dict(v) if isinstance(v, dict) else v) for k, v in got.items()}
+                if got != want and bad is None:
+                    bad = "inspect(%s, look_for=%s, limit=%s) reports %s; the first %d features give %s" % (label, lf, limit, got, len(seen), want)
+    ctx.ob("R5", bad is None, "inspect reports exact counts of what was iterated: %d combinations of source x look_for x limit agree with counting the first `limit` "
+           "features by hand" % n, func=f, sig="inspect counts agree with the iterated features" if bad is None else bad[:600])
+
+
 def check(ctx):
     ctx.explanation = (
         "DataIterator's dispatch is a decision table obtained by abstract evaluation over every kind of input; _FeatureIterator.peek is "
@@ -313,3 +361,4 @@ def check(ctx):
     r3_whole_path(ctx)
     r4(ctx)
     r5(ctx)
+    r5_sources(ctx)
